@@ -134,10 +134,31 @@ class ShardResult:
         self.wall = 0.0
 
 
-CASE_LIMIT_S = int(os.environ.get("PV_CASE_LIMIT_S", "300"))
+CASE_LIMIT_S = int(os.environ.get("PV_CASE_LIMIT_S", "120"))  # wall-clock trigger for the step count below, never a verdict
+CONFIRM_LIMIT_S = int(os.environ.get("PV_CONFIRM_LIMIT_S", "2400"))
+# Deterministic step budget for ONE oracle evaluation, in line events executed inside the pyrtcm package:
+# STEP_BASE + STEP_PER_BYTE * (input bytes the oracle declared through note_input()). Measured on the unchanged tree
+# (PV_TRACE_STEPS) the heaviest cases stay below 6 % of it; see DESIGN.md 8.2. Without a declared input size there is
+# no verdict from the step count (a long evaluation is then reported as inconclusive).
+STEP_BASE = int(os.environ.get("PV_STEP_BASE", "5000000"))
+STEP_PER_BYTE = int(os.environ.get("PV_STEP_PER_BYTE", "10000"))
+_INPUT = [0]
+
+
+def note_input(nbytes):
+    """oracles / test doubles declare how many input bytes (plus scripted stream events) they hand to the library"""
+    _INPUT[0] += int(nbytes)
+
+
+SHRINK_LIMIT_S = int(os.environ.get("PV_SHRINK_LIMIT_S", "20"))
+_SHRINKING = [False]
 
 
 class _CaseTimeout(BaseException):
+    pass
+
+
+class _StepBudget(BaseException):
     pass
 
 
@@ -145,25 +166,92 @@ def _alarm(signum, frame):
     raise _CaseTimeout()
 
 
+def _save_timeout(sub, case):
+    d = os.path.join(ROOT, "replays", "_timeouts")
+    os.makedirs(d, exist_ok=True)
+    path = os.path.join(d, f"{sub.name}-{hashlib.blake2b(json.dumps(case, sort_keys=True, default=str).encode(), digest_size=6).hexdigest()}.json")
+    with open(path, "w", encoding="utf-8") as f:
+        json.dump({"subcheck": sub.name, "case": case}, f, default=str)
+    return path
+
+
+def _count_library_steps(sub, case):
+    """re-run one oracle evaluation counting the line events executed inside the pyrtcm package (deterministic for a
+    given case: no clock involved). More than STEP_BASE + STEP_PER_BYTE x declared input bytes of them - at least fifteen times
+    what the heaviest generated cases need - means the library does not terminate on that input."""
+    import pyrtcm
+
+    libdir = os.path.dirname(os.path.abspath(pyrtcm.__file__)) + os.sep
+    n = [0]
+    _INPUT[0] = 0
+
+    def local(frame, event, arg):
+        if event == "line":
+            n[0] += 1
+            if n[0] & 0xFFFF == 0 and _INPUT[0] and n[0] > STEP_BASE + STEP_PER_BYTE * _INPUT[0]:
+                raise _StepBudget()
+        return local
+
+    def glob(frame, event, arg):
+        return local if frame.f_code.co_filename.startswith(libdir) else None
+
+    sys.settrace(glob)
+    try:
+        return sub.oracle(case)
+    finally:
+        sys.settrace(None)
+        _note_steps(sub, n[0], _INPUT[0])
+
+
+_MAXSTEPS = {}
+
+
+def _note_steps(sub, n, declared):
+    """developer aid (PV_TRACE_STEPS=<dir>): record, per sub-check and process, the evaluation that came closest to
+    its step budget"""
+    d = os.environ.get("PV_TRACE_STEPS")
+    if not d:
+        return
+    frac = n / (STEP_BASE + STEP_PER_BYTE * declared) if declared else 0.0
+    best = _MAXSTEPS.get(sub.name, (-1.0, 0, 0))
+    if (frac, n) > best[:2]:
+        _MAXSTEPS[sub.name] = (frac, n, declared)
+        os.makedirs(d, exist_ok=True)
+        with open(os.path.join(d, f"{sub.name}.{os.getpid()}"), "w", encoding="utf-8") as f:
+            json.dump([frac, n, declared], f)
+
+
 def _oracle_with_watchdog(sub, case):
-    """a single oracle evaluation that runs for minutes means the code under test (or the harness) loops;
-    that is reported as a harness error (inconclusive, exit 2) with the case saved - never as a violation"""
+    """A single oracle evaluation that runs for minutes means the code under test (or the harness) loops. Wall-clock
+    time is never the verdict: the case is evaluated again under a deterministic step count; only exceeding that
+    count is reported (clause non-termination). If the second run neither finishes nor exceeds the count within
+    CONFIRM_LIMIT_S, the harness itself is stuck: harness error (inconclusive, exit 2) with the case saved."""
     import signal
     import threading
 
     if threading.current_thread() is not threading.main_thread():
         return sub.oracle(case)
+    if os.environ.get("PV_TRACE_STEPS"):
+        return _count_library_steps(sub, case)
     old = signal.signal(signal.SIGALRM, _alarm)
-    signal.alarm(CASE_LIMIT_S)
+    signal.alarm(SHRINK_LIMIT_S if _SHRINKING[0] else CASE_LIMIT_S)
     try:
-        return sub.oracle(case)
-    except _CaseTimeout:
-        d = os.path.join(ROOT, "replays", "_timeouts")
-        os.makedirs(d, exist_ok=True)
-        path = os.path.join(d, f"{sub.name}-{hashlib.blake2b(json.dumps(case, sort_keys=True, default=str).encode(), digest_size=6).hexdigest()}.json")
-        with open(path, "w", encoding="utf-8") as f:
-            json.dump({"subcheck": sub.name, "case": case}, f, default=str)
-        raise HarnessError(f"{sub.name}: one case ran longer than {CASE_LIMIT_S}s (inconclusive); case saved to {path}") from None
+        try:
+            return sub.oracle(case)
+        except _CaseTimeout:
+            if _SHRINKING[0]:
+                # a shrink candidate for ANOTHER bucket that runs long: simply not a candidate (no verdict is derived)
+                raise Fail("shrink-candidate-ran-long", "discarded") from None
+            signal.alarm(CONFIRM_LIMIT_S)
+            try:
+                return _count_library_steps(sub, case)
+            except _StepBudget:
+                f = Fail("non-termination", f"one evaluation executed more than {STEP_BASE} + {STEP_PER_BYTE} x {_INPUT[0]} library line events ({_INPUT[0]} = input bytes and stream events handed to the library) without finishing")
+                f.no_shrink = True
+                raise f from None
+            except _CaseTimeout:
+                path = _save_timeout(sub, case)
+                raise HarnessError(f"{sub.name}: one case ran longer than {CASE_LIMIT_S}+{CONFIRM_LIMIT_S}s without exceeding the library step budget (inconclusive; declared input {_INPUT[0]}); case saved to {path}") from None
     finally:
         signal.alarm(0)
         signal.signal(signal.SIGALRM, old)
@@ -171,6 +259,8 @@ def _oracle_with_watchdog(sub, case):
 
 def evaluate(sub, case, res, want_samples=3):
     """run the oracle on one case, recording instead of raising"""
+    if getattr(res, "stopped", False):
+        return None  # this shard already holds a non-terminating case: each further one would cost minutes
     try:
         if isinstance(case, dict) and case.get("__checkdefs__"):
             from pv import model
@@ -186,6 +276,9 @@ def evaluate(sub, case, res, want_samples=3):
             res.failures[bucket] = {"case": case, "msg": f.msg[:2000], "count": 1}
         else:
             ent["count"] += 1
+        if getattr(f, "no_shrink", False):
+            res.failures[bucket]["no_shrink"] = True
+            res.stopped = True
         res.evals += 1
         res.cases += 1
         return bucket
@@ -330,10 +423,13 @@ def shrink_case(sub, tier, seed, shard, nshards, bucket, first_case, first_label
                 best["case"], best["size"] = case, size
             raise AssertionError("target bucket")
 
+    _SHRINKING[0] = True
     try:
         drive()
     except BaseException:  # pylint: disable=broad-except
         pass
+    finally:
+        _SHRINKING[0] = False
     if best["case"] is not None and fails(best["case"]):
         return best["case"]
     return first_case
